@@ -54,6 +54,7 @@ type dsLocal struct {
 	nStale  int
 	round   int32
 	cstr    string
+	sum     interface{}
 	viol    string // local oracle failure (decision check / C02 monitor)
 	violKey string
 }
@@ -78,6 +79,10 @@ type dsExplorer struct {
 	useStale bool
 	// onPublish returns extra pending deliveries (encoded) unlocked by the publication of m
 	onPublish func(m *dsMsg, byNode int) []uint32
+	// movesFn overrides the canonical scheduler (free move + deviations) when set
+	movesFn func(g *dsGlobal) (free *dsEv, devs []dsEv)
+	// summarize attaches harness-specific, behaviour-derived data to every new local state
+	summarize func(n *dsNode) interface{}
 	// menu: Byzantine deliveries available at any time as deviations (cost 1 each)
 	menu []uint32
 	// localCheck is run on the live node after every local step (C01: decision check; C02: monitor)
@@ -168,6 +173,9 @@ func (e *dsExplorer) internLocal(n *dsNode, node int, hist []dsEv) *dsLocal {
 	l.active = n.active() && n.cs.Round <= e.maxRound
 	if dsDebug {
 		l.cstr = cstr
+	}
+	if e.summarize != nil {
+		l.sum = e.summarize(n)
 	}
 	e.locals = append(e.locals, l)
 	e.byCanon[c] = l.id
@@ -642,9 +650,15 @@ func (e *dsExplorer) search(g0 *dsGlobal, maxDev int, workers int, onState func(
 	}
 	completed = -1
 	maxLen := int32(0)
-	for cost := 0; cost <= maxDev && len(frontier) > 0 && !stopped(); cost++ {
-		var next []int32
-		var nmtx sync.Mutex
+	getMoves := func(g *dsGlobal) (*dsEv, []dsEv) {
+		if e.movesFn != nil {
+			return e.movesFn(g)
+		}
+		return e.moves(g)
+	}
+	parallel := func(n int, f func(k int, out *[]int32)) []int32 {
+		var all []int32
+		var amtx sync.Mutex
 		var wg sync.WaitGroup
 		var cursor int64
 		for wkr := 0; wkr < workers; wkr++ {
@@ -655,74 +669,92 @@ func (e *dsExplorer) search(g0 *dsGlobal, maxDev int, workers int, onState func(
 				steps := 0
 				for {
 					k := int(atomic.AddInt64(&cursor, 1)) - 1
-					if k >= len(frontier) || stopped() {
+					if k >= n || stopped() {
 						break
 					}
-					// follow the chain of free moves from this frontier state
-					sid := frontier[k]
-					for {
-						steps++
-						if steps%64 == 0 && e.r.Deadline("dsim deviation-bounded search") {
-							atomic.StoreInt32(&stopF, 1)
-						}
-						if stopped() {
-							break
-						}
-						st := e.state(sid)
-						g := dsDecodeGlobal(st.key, len(e.correct))
-						free, devs := e.moves(g)
-						if cost < maxDev {
-							for _, ev := range devs {
-								ng := e.succ(g, ev)
-								atomic.AddInt64(&transitions, 1)
-								nid, fresh := e.visit(ng.key(), sid, ev, st.depth+1)
-								if fresh {
-									mine = append(mine, nid)
-									ls := check(nid, ng)
-									if onState != nil {
-										onState(nid, ng, ls, false)
-									}
-								}
-							}
-						}
-						if free == nil {
-							if onState != nil {
-								ls := make([]*dsLocal, len(g.L))
-								for i, lid := range g.L {
-									ls[i] = e.local(lid)
-								}
-								onState(sid, g, ls, true)
-							}
-							break
-						}
-						ng := e.succ(g, *free)
-						atomic.AddInt64(&transitions, 1)
-						nid, fresh := e.visit(ng.key(), sid, *free, st.depth+1)
-						if !fresh {
-							break
-						}
-						if st.depth+1 > atomic.LoadInt32(&maxLen) {
-							atomic.StoreInt32(&maxLen, st.depth+1)
-						}
-						ls := check(nid, ng)
-						if onState != nil {
-							onState(nid, ng, ls, false)
-						}
-						sid = nid
+					steps++
+					if steps%32 == 0 && e.r.Deadline("dsim deviation-bounded search") {
+						atomic.StoreInt32(&stopF, 1)
+						break
 					}
+					f(k, &mine)
 				}
-				nmtx.Lock()
-				next = append(next, mine...)
-				nmtx.Unlock()
+				amtx.Lock()
+				all = append(all, mine...)
+				amtx.Unlock()
 			}()
 		}
 		wg.Wait()
+		sort.Slice(all, func(a, b int) bool { return all[a] < all[b] })
+		return all
+	}
+	for cost := 0; cost <= maxDev && len(frontier) > 0 && !stopped(); cost++ {
+		// phase 1: close the level under free moves (a state found here needs exactly `cost` deviations)
+		chain := parallel(len(frontier), func(k int, mine *[]int32) {
+			sid := frontier[k]
+			for !stopped() {
+				st := e.state(sid)
+				g := dsDecodeGlobal(st.key, len(e.correct))
+				free, _ := getMoves(g)
+				if free == nil {
+					if onState != nil {
+						ls := make([]*dsLocal, len(g.L))
+						for i, lid := range g.L {
+							ls[i] = e.local(lid)
+						}
+						onState(sid, g, ls, true)
+					}
+					return
+				}
+				ng := e.succ(g, *free)
+				atomic.AddInt64(&transitions, 1)
+				nid, fresh := e.visit(ng.key(), sid, *free, st.depth+1)
+				if !fresh {
+					return
+				}
+				if st.depth+1 > atomic.LoadInt32(&maxLen) {
+					atomic.StoreInt32(&maxLen, st.depth+1)
+				}
+				ls := check(nid, ng)
+				if onState != nil {
+					onState(nid, ng, ls, false)
+				}
+				*mine = append(*mine, nid)
+				sid = nid
+			}
+		})
 		if stopped() {
 			e.r.Cap(fmt.Sprintf("stopped while exploring executions with %d deviations (all executions with < %d deviations are complete)", cost, cost))
 			break
 		}
 		completed = cost
-		sort.Slice(next, func(a, b int) bool { return next[a] < next[b] })
+		if cost == maxDev {
+			break
+		}
+		// phase 2: one deviation from every state of this level
+		level := append(append([]int32{}, frontier...), chain...)
+		next := parallel(len(level), func(k int, mine *[]int32) {
+			sid := level[k]
+			st := e.state(sid)
+			g := dsDecodeGlobal(st.key, len(e.correct))
+			_, devs := getMoves(g)
+			for _, ev := range devs {
+				ng := e.succ(g, ev)
+				atomic.AddInt64(&transitions, 1)
+				nid, fresh := e.visit(ng.key(), sid, ev, st.depth+1)
+				if fresh {
+					*mine = append(*mine, nid)
+					ls := check(nid, ng)
+					if onState != nil {
+						onState(nid, ng, ls, false)
+					}
+				}
+			}
+		})
+		if stopped() {
+			e.r.Cap(fmt.Sprintf("stopped while generating executions with %d deviations (all executions with <= %d deviations are complete)", cost+1, cost))
+			break
+		}
 		frontier = next
 	}
 	e.r.States += int64(e.nStates())
